@@ -1,4 +1,5 @@
 import DeapModel.Core.RealOps
+import DeapModel.Core.RoundedOps
 import Driver.Proto
 /-!
 Protocol handler for C10 (real-coded operators), `Float` instance of `Core/RealOps.lean`.
@@ -16,11 +17,35 @@ The first individual is object 1 with strategy object 3, the second is object 2 
   logn    <c> <indpb> <genes> <strat> <rs> <gs>
 
 Answers: `ok <ids> <lists…> <unused draws>` | `IndexError` | `ZeroDivisionError` | `bad-tape` | `bad-op`.
+A NaN gene is printed as `nan` (the bit pattern of a NaN is not canonical).
+
+Rounded semantics (`Core/RoundedOps.lean`), on the exact rational values of the doubles:
+
+  xclamp <c> <xl> <xu>                          `min(max(c, xl), xu)` on `XF`  ->  `nan` | `inf` | `-inf` | `n/d`
+  xhyp sbxb <eta> <x1> <x2> <xl> <xu> <rand>    first failing clause of `sbxbHyp binary64` (`ok` = the hypotheses of
+                                                `C10.sbxb_rounded_locus` hold), `nonfinite` for a non-finite operand
+  xhyp poly <eta> <x> <xl> <xu> <rand>          likewise `polyHyp binary64` / `C10.poly_rounded_locus`
 -/
 namespace DriverC10
 open Proto RealOps
 
-def fl (l : List Float) : String := showList showFloat l
+def showF (x : Float) : String := if x.isNaN then "nan" else showFloat x
+
+def fl (l : List Float) : String := showList showF l
+
+/-- a float token as its exact value -/
+def parseXF (s : String) : Option RoundedOps.XF :=
+  if s.startsWith "f:" then (s.drop 2).toString.toNat?.map (fun n => RoundedOps.XF.ofBits (UInt64.ofNat n)) else none
+
+def showXF : RoundedOps.XF → String
+  | .fin q => showRat q
+  | .pinf => "inf"
+  | .ninf => "-inf"
+  | .nan => "nan"
+
+def finite? : RoundedOps.XF → Option Rat
+  | .fin q => some q
+  | _ => none
 
 def parseBound (s : String) : Option (Bound Float) :=
   if s.startsWith "L" then (parseList parseFloat (s.drop 1).toString).map Bound.seq
@@ -83,6 +108,28 @@ def handle : List String → String
     | some (cc, p, x, s, r, z) =>
       fin (mutESLogNormal ⟨1, x, 3, s⟩ cc p r z)
         (fun o => s!"{o.1.oid},{o.1.soid} {fl o.1.genes} {fl o.1.strategy} {o.2.1.length} {o.2.2.length}")
+    | none => "bad-op"
+  | ["xclamp", c, lo, up] =>
+    match (do let x ← parseXF c; let l ← parseXF lo; let u ← parseXF up; pure (x, l, u)) with
+    | some (x, l, u) => showXF (RoundedOps.XF.clamp x l u)
+    | none => "bad-op"
+  | ["xhyp", "sbxb", et, a, b, lo, up, r] =>
+    match (do let e ← parseXF et; let x ← parseXF a; let y ← parseXF b; let l ← parseXF lo; let u ← parseXF up
+              let d ← parseXF r; pure (e, x, y, l, u, d)) with
+    | some (e, x, y, l, u, d) =>
+      match (do let e ← finite? e; let x ← finite? x; let y ← finite? y; let l ← finite? l; let u ← finite? u
+                let d ← finite? d; pure (RoundedOps.sbxbWhy RoundedOps.binary64 e x y l u d)) with
+      | some w => w
+      | none => "nonfinite"
+    | none => "bad-op"
+  | ["xhyp", "poly", et, a, lo, up, r] =>
+    match (do let e ← parseXF et; let x ← parseXF a; let l ← parseXF lo; let u ← parseXF up
+              let d ← parseXF r; pure (e, x, l, u, d)) with
+    | some (e, x, l, u, d) =>
+      match (do let e ← finite? e; let x ← finite? x; let l ← finite? l; let u ← finite? u
+                let d ← finite? d; pure (RoundedOps.polyWhy RoundedOps.binary64 e x l u d)) with
+      | some w => w
+      | none => "nonfinite"
     | none => "bad-op"
   | _ => "bad-op"
 
